@@ -264,7 +264,8 @@ class History:
     """Model-based generator of valid call histories for one bandit configuration."""
 
     def __init__(self, draw, config, reward_family=None, grid="int", d=None, max_rows=10, min_rows=1,
-                 arm_changes=True, exact_only=False, max_d=3, query_rows=(1, 2, 3, 5), series_queries=False):
+                 arm_changes=True, exact_only=False, max_d=3, query_rows=(1, 2, 3, 5), series_queries=False,
+                 refit_new_d=False):
         self.draw = draw
         self.cfg = config
         self.arms = list(config["arms"])
@@ -285,6 +286,7 @@ class History:
         self.ops = []
         self.has_prob_list = bool(self.np and self.np[1].get("no_nhood_prob_of_arm"))
         self.series_queries = series_queries
+        self.refit_new_d = refit_new_d
 
     def _min_fit_rows(self):
         if self.np is None:
@@ -329,6 +331,8 @@ class History:
 
     # -- ops
     def fit(self, new_d=False, **kw):
+        if self.refit_new_d and self.fitted and self.draw(st.integers(0, 3)) == 0:
+            new_d = True            # a re-fit on contexts with another number of feature columns
         if new_d and self.contextual:
             self.d = self.draw(st.integers(1, 3))
         dec, rew, ctx = self.batch(min_rows=self.min_rows, **kw)
@@ -350,7 +354,7 @@ class History:
             # the same query as a pandas Series, where the documented disambiguation applies: one feature -> one row
             # per value, several features -> a single row
             vals = [r[0] for r in q] if self.d == 1 else list(q[0])
-            return self._emit([kind + "_series", vals])
+            return self._emit([kind + "_series", vals, len(q)])      # (third element: the number of rows it stands for)
         return self._emit([kind, q])
 
     def predict(self, m=None):
